@@ -68,3 +68,55 @@ Print Assumptions C03_set_state_normalises.
 (* non-vacuity: a concrete non-trivial unit quaternion *)
 Example C03_unit_example : unitq (Q4 (1/2) (1/2) (-1/2) (1/2)).
 Proof. unfold unitq; rcompute; field. Qed.
+
+(* ---- scene level: a rigid motion of the whole scene rotates every influence vector and leaves the residual unchanged ---- *)
+From Coq Require Import Lra.
+From MuxV Require Import Model.Kernel Model.Residual Proofs.KernelP Proofs.ResidualEqP Proofs.SceneEqP.
+
+Section Rigid.
+  Variable q : quat R.                 (* any unit quaternion *)
+  Variable t : v3 R.                   (* any translation *)
+  Hypothesis Hq : unitq q.
+  Let Hq' : qn2 q = 1. Proof. destruct q; exact Hq. Qed.
+  Definition move_point (x : v3 R) : v3 R := vadd (quat_inv_trans q x) t.
+  Definition move_hs (h : hshoe R) : hshoe R :=
+    mk_hs (move_point (hP0 h)) (move_point (hP1 h)) (move_point (hJ0 h)) (move_point (hJ1 h))
+          (quat_inv_trans q (hu0 h)) (quat_inv_trans q (hu1 h)).
+
+  (* the influence of a moved horseshoe on a moved control point is the rotated influence (bound, jointed and trailing parts,
+     including the cut-off decision) *)
+  Theorem C03_influence_rotates : forall cutoff i4p diag pc h,
+    vji (fun x => x) cutoff i4p diag (move_point pc) (move_hs h) = quat_inv_trans q (vji (fun x => x) cutoff i4p diag pc h).
+  Proof.
+    intros cutoff i4p diag pc h.
+    pose proof (vji_sim (rotO q) 1 (rot_add q) (rot_scale q) (rot_dot q Hq') (rot_cross q Hq') 1 t ltac:(lra) cutoff i4p diag pc h) as H.
+    replace (1 * 1 * cutoff) with cutoff in H by ring.
+    unfold Sh in H. unfold Sp, rotO in H. unfold move_point, move_hs.
+    assert (E : forall x, vadd (vscale 1 (quat_inv_trans q x)) t = vadd (quat_inv_trans q x) t) by (intros; rewrite vscale_1; reflexivity).
+    rewrite !E in H. replace (1 / 1) with 1 in H by field. rewrite vscale_1 in H. exact H.
+  Qed.
+
+  (* moved control point data: every vector rotated, scalars untouched *)
+  Definition move_cpt (c : cpt R) : cpt R :=
+    mk_cpt (quat_inv_trans q (cdl c)) (quat_inv_trans q (cua c)) (quat_inv_trans q (cun c)) (quat_inv_trans q (cus c))
+           (cdS c) (ccbar c) (cnu c) (csos c) (ccsi c) (quat_inv_trans q (cvinf c)) (quat_inv_trans q (cvrot c)).
+
+  (* for every solver-option combination, every section model, every list of control points / influence rows / circulations:
+     the lifting-line residual of the moved scene equals that of the original scene; in particular they have the same solutions *)
+  Theorem C03_rigid_motion_invariance : forall atan2 opt cs Ss Vm g,
+    residual atan2 opt (map move_cpt cs) Ss (map (map (quat_inv_trans q)) Vm) g = residual atan2 opt cs Ss Vm g.
+  Proof.
+    intros atan2 opt cs Ss Vm g.
+    pose proof (residual_sim (rotO q) (rot_add q) (rot_scale q) (rot_dot q Hq') 1 ltac:(ring) (rot_cross q Hq') 1 ltac:(lra) atan2 opt cs Ss Vm g
+                  (or_introl eq_refl)) as H.
+    assert (Ec : map (Tc (rotO q) 1 1) cs = map move_cpt cs).
+    { apply map_ext. intros c. unfold Tc, move_cpt, rotO. destruct c; cbn. f_equal; try ring; try apply vscale_1.
+      replace (1 * 1) with 1 by ring. apply vscale_1. }
+    assert (Ev : map (map (TV (rotO q) 1)) Vm = map (map (quat_inv_trans q)) Vm).
+    { apply map_ext. intros row. apply map_ext. intros V. unfold TV, rotO. replace (1 / 1) with 1 by field. apply vscale_1. }
+    assert (Eg : map (Rmult 1) g = g) by (rewrite <- (map_id g) at 2; apply map_ext; intros; ring).
+    rewrite Ec, Ev, Eg in H. rewrite H. rewrite <- (map_id (residual atan2 opt cs Ss Vm g)) at 2. apply map_ext. intros; ring.
+  Qed.
+End Rigid.
+Print Assumptions C03_influence_rotates.
+Print Assumptions C03_rigid_motion_invariance.
